@@ -734,6 +734,40 @@ func runC16(w *core.WorkerCtx, idx int) *core.CaseResult {
 			witness("external labels", t2)
 		}
 	}
+	// must be equal: a global section that holds nothing but external labels, no global section, an empty one
+	{
+		var hs []string
+		var texts []string
+		for k := 0; k < 4; k++ {
+			s2 := clone(spec)
+			s2.Interval, s2.Timeout, s2.EvalInterval, s2.ExternalLabels = "", "", "", nil
+			switch k {
+			case 0:
+				s2.ExternalLabels = map[string]string{"cluster": "only-thing-in-global"}
+			case 1:
+				s2.GlobalForm = "omitted"
+			case 2:
+				s2.GlobalForm = "empty"
+			case 3:
+				s2.ExternalLabels = map[string]string{"replica": "r1", "zone": "z"}
+			}
+			t2 := cfggen.Render(s2, cfggen.Style{Indent: 2})
+			h2, err := hashOf(t2)
+			if err != nil {
+				hs = nil
+				break
+			}
+			hs, texts = append(hs, h2), append(texts, t2)
+		}
+		for k := 1; k < len(hs); k++ {
+			res.Execs++
+			res.AddStat("global_section_forms_must_be_equal", 1)
+			if hs[k] != hs[0] {
+				res.Violate("C16/hash-depends-on-external-labels", "a global section holding only external labels hashes to %s; the same configuration with %s hashes to %s", hs[0], []string{"", "no global section", "an empty global section", "other external labels only"}[k], hs[k])
+				witness("global section form", texts[k])
+			}
+		}
+	}
 	// same content loaded from a FILE (as the coordinator does) and from raw bytes (as a sidecar gets it)
 	if idx%2 == 0 {
 		d := filepath.Join(w.Scratch, fmt.Sprintf("c16-file-%d", idx), "etc", "prometheus")
@@ -1214,6 +1248,7 @@ func init() {
 		Rule: "case = one generated configuration (1-4 jobs with scheme/path/params/intervals/honor flags/limits/relabel and metric-relabel programs/auth kinds/SD kinds, global section, rule files, alerting, remote write/read with secrets) hashed by the real prom.ConfigManager; " +
 			"for it every applicable entry of a catalogue of ~150 single-setting edits (each scalar, list entry added/removed, regex of scrape/metric/alert/write relabel rules, secrets, usernames, SD options, remote URLs) must change the hash; 7 re-renderings (indentation, quoting style, comments, key order, flow lists) and 3 external-label changes must not; every second case also loads the same bytes from a file in a nested directory (as the coordinator does; the generator emits relative rule-file and file-discovery paths) and compares with the raw-content hash (as a sidecar computes it); every 8th case also hashes the same text in 3 fresh processes and through a sidecar's /runtimeinfo/; " +
 			"plus processes wired as cmd/kvass wires them: a ConfigManager whose first reload callback rewrites the parsed configuration in place (service-account paths, kubernetes api_server) goes through reload / stop reason set / same again / cleared / reload / set, and every 16th case the real `kvass sidecar --inject.kubernetes-sa-path` process goes through the same steps over HTTP - the hash must stay the hash of the content; " +
+			"a global section that holds nothing but external labels, no global section and an empty one must hash alike; " +
 			"on the real sidecar process also: a push of another version that fails in Prometheus' reload, after which the coordinator (still at its version) pushes if the reported hash differs - a shard that then reports the coordinator's hash must have the generated file of the coordinator's version; " +
 			"non-trivial = every case whose base configuration loads; distinct = hash of the base text",
 		Assumptions: []string{
